@@ -348,11 +348,14 @@ Definition claims_connected (o : op) (code : nat) : bool :=
   | _ => false
   end.
 
-(* t' = the table after the operation, code = its outcome code *)
-Definition gt_step (local : key) (t' : table) (code : nat) (g : list key) (o : op) : list key :=
+(* t / t' = the table before / after the operation, code = its outcome code.  A claim counts
+   when the peer is stored before or after it (on the model "before" implies "after"; for an
+   observed trace the disjunction makes losing the peer at the very claim a violation too) *)
+Definition gt_step (local : key) (t t' : table) (code : nat) (g : list key) (o : op) : list key :=
   match o with
   | ODisconnected k => del_peer g k
-  | _ => if claims_connected o code && stored_in local t' (op_key o)
+  | _ => if claims_connected o code &&
+            (stored_in local t (op_key o) || stored_in local t' (op_key o))
          then add_peer g (op_key o) else g
   end.
 
@@ -362,7 +365,7 @@ Fixpoint grun (local : key) (K : nat) (t : table) (g : list key) (h : list op)
   | [] => (t, g)
   | o :: h' =>
       let r := step local K t o in
-      grun local K (fst r) (gt_step local (fst r) (snd (snd r)) g o) h'
+      grun local K (fst r) (gt_step local t (fst r) (snd (snd r)) g o) h'
   end.
 
 Definition ghost (local : key) (K : nat) (h : list op) : list key :=
